@@ -74,14 +74,23 @@ def doc_wsdl(schema, input_element="Wrapper", output_element=None,
 # ---------------------------------------------------------------------------
 
 class Node(object):
-    __slots__ = ("ns", "name", "attrs", "children", "text")
+    __slots__ = ("ns", "name", "attrs", "children", "text", "nsmap")
 
-    def __init__(self, ns, name, attrs):
+    def __init__(self, ns, name, attrs, nsmap=None):
         self.ns = ns
         self.name = name
         self.attrs = attrs          # dict (ns, local) -> value
         self.children = []          # Node or str, in document order
         self.text = None
+        self.nsmap = nsmap or {}    # prefix ('' = default) -> uri in scope at this element
+
+    def resolve_qname(self, text):
+        """(uri or None, local) of a QName-valued attribute/text in this
+        element's scope; raises KeyError for an undeclared prefix."""
+        if ":" in text:
+            p, local = text.split(":", 1)
+            return self.nsmap[p], local
+        return self.nsmap.get("") or None, text
 
     def elements(self):
         return [c for c in self.children if isinstance(c, Node)]
@@ -133,13 +142,26 @@ def expat_parse(data):
     p.ordered_attributes = False
     stack = []
     root = []
+    scopes = [{"xml": "http://www.w3.org/XML/1998/namespace"}]
+    pending = {}
+
+    def start_ns(prefix, uri):
+        pending[prefix or ""] = uri
 
     def start(name, attrs):
         ns, local = _split(name)
         a = {}
         for k, v in attrs.items():
             a[_split(k)] = v
-        n = Node(ns, local, a)
+        scope = dict(scopes[-1])
+        for k, v in pending.items():
+            if v:
+                scope[k] = v
+            else:
+                scope.pop(k, None)
+        pending.clear()
+        scopes.append(scope)
+        n = Node(ns, local, a, scope)
         if stack:
             stack[-1].children.append(n)
         else:
@@ -148,11 +170,13 @@ def expat_parse(data):
 
     def end(name):
         stack.pop()
+        scopes.pop()
 
     def chars(data):
         if stack:
             stack[-1].children.append(data)
 
+    p.StartNamespaceDeclHandler = start_ns
     p.StartElementHandler = start
     p.EndElementHandler = end
     p.CharacterDataHandler = chars
